@@ -507,6 +507,17 @@ class Enumerator(object):
         ht = self.helper_target(node)
         if ht is not None:
             return self.inline_helper(node, ht[0], ht[1], path)
+        if k == 'Call' and (node.get('f') or {}).get('dk', '').startswith('Ctor') and len(node.get('args', [])) == 1 and self.needs_paths(node['args'][0]) \
+                and H.peel(node['args'][0]).get('k') in ('Call', 'MethodCall', 'Try'):
+            # Ok(helper(..)) / Some(helper(..)?): the constructor wraps whatever each path of the helper yields
+            ctor = S.norm_path((node['f'].get('resolved') or node['f'].get('path') or ''))
+            ctor = {'std::prelude::v1::Ok': 'Ok', 'std::prelude::v1::Err': 'Err', 'std::prelude::v1::Some': 'Some'}.get(ctor, ctor)
+            out = []
+            for p in self.run(node['args'][0], path):
+                if not p.done:
+                    p.value = ('call', ctor, (p.value,), ())
+                out.append(p)
+            return out
         if k == 'Try' and self.has_ctl(node['e']):
             out = []
             for p in self.run(node['e'], path):
